@@ -313,7 +313,11 @@ class Conn:
         return self.serial
 
     def send_raw(self, data, fds=None):
+        if getattr(self, 'holding', None) is not None and not fds:
+            self.holding += data          # written in one piece later (flush_held)
+            return True
         try:
+            self.s.settimeout(10.0)      # (reads set their own, much shorter, timeouts)
             if fds:
                 self.s.sendmsg([data], [(socket.SOL_SOCKET, socket.SCM_RIGHTS, array.array('i', fds))])
             else:
@@ -321,6 +325,15 @@ class Conn:
             return True
         except (BrokenPipeError, ConnectionResetError, OSError):
             return False
+
+    def flush_held(self):
+        h, self.holding = getattr(self, 'holding', None), None
+        if h:
+            self.s.settimeout(10.0)
+            try:
+                self.s.sendall(bytes(h))
+            except OSError:
+                pass
 
     def send(self, mtype, fields=None, sig='', body=(), flags=0, serial=None, **kw):
         if serial is None:
